@@ -17,13 +17,13 @@ MANIFEST = dict(
 
 def ratchet_history(rng, maxlen=10):
     """update, then edits that resolve / add violations, interleaved with ratchet runs under restrictions"""
-    h = [{"op": "edit", "state": "".join(rng.choice("oow-u") for _ in UFILES)}, {"op": "update", "mode": "a", "we": False}]
+    h = [{"op": "edit", "state": "".join(rng.choice("ooOw-u") for _ in UFILES)}, {"op": "update", "mode": "a", "we": False}]
     for _ in range(rng.randint(2, maxlen - 2)):
         r = rng.random()
         prev = [o for o in h if o["op"] == "edit"][-1]["state"]
         if r < 0.35:
             i = rng.randrange(len(UFILES))
-            h.append({"op": "edit", "state": prev[:i] + rng.choice("-uwo") + prev[i + 1:]})
+            h.append({"op": "edit", "state": prev[:i] + rng.choice("-uwoO") + prev[i + 1:]})
         elif r < 0.42:
             h.append({"op": "update", "mode": rng.choice("aacsn"), "we": rng.random() < 0.5})
         elif r < 0.47:
@@ -60,6 +60,7 @@ def run(ctx):
     allh = [c["history"] for c in corpus] + hists
     depth = [bool(c.get("depth0")) for c in corpus] + [i % 7 == 6 for i in range(len(hists))]
     hp = history_phase(ctx, bins, model, allh, depth_flags=depth)
+    br = big_ratchet_phase(ctx, bins, model, 3 if ctx.tier == "quick" else 10)
     xcheck_model(ctx, model, 40 if ctx.tier == "quick" else 300)
     modes = {}
     for h in allh:
@@ -68,16 +69,17 @@ def run(ctx):
                 fl = o["flags"]
                 m = (fl.get("rc") or "-") + "/" + (fl.get("rg") or "-") + ("/files" if o.get("files") else "") + ("/ff" if is_ff(fl) else "")
                 modes[m] = modes.get(m, 0) + 1
-    ctx.cov["evaluations"] = lib["cases"] + hp["steps"]
+    ctx.cov["evaluations"] = lib["cases"] + hp["steps"] + br["steps"]
     ctx.cov["distinct_nontrivial"] = hp["nontrivial"]
-    ctx.cov["traces_validated_against_impl"] = hp["steps"] - len(hp["mismatches"])
+    ctx.cov["traces_validated_against_impl"] = hp["steps"] + br["steps"] - len(hp["mismatches"]) - len(br["mismatches"])
     ctx.cov["rule"] = ("library level: check_baseline_ratchet / tighten_baseline on seeded result lists x baselines vs the extracted model; CLI level: histories (update, edits "
                        "resolving or adding violations, ratchet runs warn/auto/strict by flag and by [baseline] ratchet, x --files subsets incl. repeated and missing files, x fail-fast by "
-                       "flag and config with 1..16 threads); every auto run is rerun once for the fixpoint; observables: baseline file, stale paths in the diagnostics, exit. "
+                       "flag and config with 1..16 threads); every auto run is rerun once for the fixpoint; large projects (40-60 files over the limit, more than 20 fixed at once) through strict / auto / auto / strict; observables: baseline file, stale paths in the diagnostics, exit. "
                        "non-trivial = histories with at least one update, one edit and a non-empty baseline on disk at some step")
     ctx.cov["input_distribution"] = {"library": lib["dist"], "histories": dict(dist, corpus=len(corpus)), "cli_steps": hp["steps"], "cli_spawns": hp["spawns"],
-                                     "ratchet_cli/cfg/restriction": modes, "fail_fast_steps": hp["ff_traces"]}
-    ctx.cov["model_vs_impl_mismatches"] = len(lib["mismatches"]) + len(hp["mismatches"])
+                                     "ratchet_cli/cfg/restriction": modes, "fail_fast_steps": hp["ff_traces"],
+                                     "large_project_steps(40-60 files, >20 entries resolved at once)": br["steps"]}
+    ctx.cov["model_vs_impl_mismatches"] = len(lib["mismatches"]) + len(hp["mismatches"]) + len(br["mismatches"])
     for s in lib["sample"][:1] + hp["sample"][:2]:
         ctx.sample(s)
     ctx.cov["trusted_base"] = TRUSTED_COMMON + ["python evaluator of the 5-file universe (compared with a plain run in every visited state)",
@@ -86,9 +88,9 @@ def run(ctx):
     fails = [f for f in lib["oracle_failures"] if f["prop"] == "C10"]
     for f in fails[:3]:
         ctx.violation({"kind": "property-oracle", "what": f["what"], "first_mismatch": {"case": f["case"]}})
-    n = report_findings(ctx, "C10", hp["findings"])
+    n = report_findings(ctx, "C10", hp["findings"] + br["findings"])
     if not fails and not n:
-        tie = lib["mismatches"] + hp["mismatches"] + hp["structural"]
+        tie = lib["mismatches"] + hp["mismatches"] + hp["structural"] + br["mismatches"]
         report_tie(ctx, "C10", "sgv-check / sloc-guard check == extracted Check.Ratchet + Check.Baseline.check_step", tie, proofs_ok, lib["errs"])
 
 
